@@ -32,6 +32,16 @@ PROPS = {
         "assumptions": ROUTER_ASSUMPTIONS,
         "min_outcomes": 6,
     },
+    "C14": {
+        "level": "model_checking",
+        "technique": "explicit enumeration of policies x route sets (method subsets) x declaration shapes x registration orders and of all simple and preflight requests; every response of the real router behind the real CORS fang is compared with a reference CORS model fed with the policy and the route table",
+        "engine": "vmc",
+        "level_text": "Bounded exhaustive exploration of configuration x input space: 32 policies (wildcard/specific origin x credentials x allow-headers x expose-headers x max-age), every single route of depth <=2 over {a,ab,b,:p} with all 31 method subsets, every pair of routes with a 5-entry method-subset menu, eight declaration shapes (incl. one route declared in two HandlerSets and one route completed by a mounted application) and their registration orders; per configuration 7 simple methods + 16 preflight variants on every route instance, every prefix of it, one path below it, / and a miss path.",
+        "level_note": "Trusted: the reference CORS model (headers on every response; preflight succeeds iff the requested method is registered for the route the path denotes, then advertises exactly the registered methods + HEAD with GET + OPTIONS, configured-or-echoed headers, configured max-age) and the C01 reference matcher. A preflight asking for OPTIONS itself and paths whose routing is open are counted as ambiguous. Quick tier rotates policies over route sets instead of taking the full product.",
+        "jobs": {"quick": 16, "thorough": 16},
+        "assumptions": ROUTER_ASSUMPTIONS,
+        "min_outcomes": 5,
+    },
     "C20": {
         "level": "exploration",
         "technique": "exhaustive enumeration of structured input families against an independent reference (bounded model checking of a pure function)",
